@@ -24,6 +24,7 @@ U(k, f) == [k |-> k, f |-> f, pdvs |-> <<>>, grey |-> FALSE]
 UserItems ==
   { U("RQ", <<>>), U("AC", <<>>), U("RJ", <<1, 2, 3>>), U("RLRQ", <<>>), U("RLRP", <<>>), U("AB", <<0, 0>>),
     [k |-> "GEN", frags |-> <<U("PD", <<1>>)>>], [k |-> "GEN", frags |-> <<U("PD", <<2>>), U("PD", <<3>>)>>] }
+  \cup (IF Faults THEN { [k |-> "GEN", frags |-> <<U("BAD", <<>>)>>], [k |-> "GEN", frags |-> <<U("PD", <<4>>), U("BAD", <<>>)>>] } ELSE {})
 
 Legal(it) ==
   LET k == IF it.k = "GEN" THEN "PD" ELSE it.k IN
